@@ -51,8 +51,39 @@ pub fn run(bin: &Path, argv: &[String], hash_seed: u64, io: &Io) -> std::io::Res
     {
         let mut st = hash_seed ^ 0xE4F;
         let mut next = || simcore::prng::splitmix64(&mut st);
-        let vars: [(&str, &[&str]); 9] = [
-            ("HOME", &["/root", "/nonexistent", "/tmp"]),
+        // HOME / TMPDIR / XDG_CACHE_HOME live in a sandbox that all children of one check share (so
+        // state that a change persists on disk is seen by later processes, but never leaves /verif/build)
+        let sandbox = std::env::current_exe()
+            .ok()
+            .and_then(|p| p.ancestors().find(|a| a.file_name().map(|n| n == "build").unwrap_or(false)).map(|b| b.join("out/sandbox")))
+            .unwrap_or_else(|| std::path::PathBuf::from("/verif/build/out/sandbox"));
+        for d in ["home", "tmp", "cache"] {
+            let _ = std::fs::create_dir_all(sandbox.join(d));
+        }
+        let sb = |sub: &str| sandbox.join(sub).to_string_lossy().to_string();
+        let r = next();
+        match r % 4 {
+            0 => {}
+            1 => {
+                c.env("HOME", sb("missing-home"));
+            }
+            _ => {
+                c.env("HOME", sb("home"));
+            }
+        }
+        match (r >> 8) % 4 {
+            0 => {}
+            1 => {
+                c.env("TMPDIR", sb("missing-tmp"));
+            }
+            _ => {
+                c.env("TMPDIR", sb("tmp"));
+            }
+        }
+        if (r >> 16) % 3 == 0 {
+            c.env("XDG_CACHE_HOME", sb("cache"));
+        }
+        let vars: [(&str, &[&str]); 7] = [
             ("USER", &["root", "nobody"]),
             ("LANG", &["C", "en_US.UTF-8", "de_DE.UTF-8", "tr_TR.UTF-8"]),
             ("LC_ALL", &["C", "POSIX", "en_US.UTF-8"]),
@@ -60,7 +91,6 @@ pub fn run(bin: &Path, argv: &[String], hash_seed: u64, io: &Io) -> std::io::Res
             ("TERM", &["xterm-256color", "dumb"]),
             ("COLUMNS", &["20", "80", "500"]),
             ("NO_COLOR", &["1"]),
-            ("TMPDIR", &["/tmp", "/nonexistent"]),
         ];
         for (k, vals) in vars {
             let r = next();
